@@ -14,6 +14,7 @@ use libtw2_snapshot::snap::Error;
 use libtw2_snapshot::snap::RawBuilder;
 use libtw2_snapshot::snap::RawSnap;
 use libtw2_snapshot::snap::Snap;
+use libtw2_snapshot::Storage;
 use libtw2_snapshot_reference::snap as refsnap;
 use std::collections::BTreeMap;
 use std::io::Write;
@@ -667,6 +668,33 @@ fn op_rsnap(r: Rs<Snap>, o: &mut Oracle) -> String {
     }
 }
 
+/// C11 "every other snapshot operation": the client-side storage driven with an accepted base
+/// snapshot and an accepted delta, then `new_builder` (which recycles whatever snapshot object is
+/// in the free list, possibly one left half-built by a rejected delta) and the server-side
+/// `add_snap`.  Oracle only (the model has no storage): nothing may panic.
+fn storage_oracle(a: &Snap, d: &Delta, o: &mut Oracle) {
+    let r = catch(|| {
+        let mut st = Storage::new();
+        let mut ws: Vec<libtw2_snapshot::storage::Warning> = vec![];
+        let mut d0 = Delta::new();
+        d0.create(&Snap::empty(), a);
+        let _ = st.add_delta(&mut ws, None, -1, 1, &d0).map(|_| ());
+        let _ = st.add_delta(&mut ws, None, 1, 2, d).map(|_| ());
+        let mut b = st.new_builder();
+        let _ = b.add_item(TypeId::Uuid(new_uuid()), 1, &[7]);
+        let s = b.finish();
+        let _ = st.add_snap(3, s);
+        let _ = st.add_delta(&mut ws, None, 3, 4, d).map(|_| ());
+        let _ = st.add_delta(&mut ws, None, -1, 5, d).map(|_| ());
+        let mut b2 = st.new_builder();
+        let _ = b2.add_item(TypeId::Uuid(new_uuid()), 2, &[8]);
+        let _ = b2.finish();
+    });
+    if let Err(msg) = r {
+        o.fail("C11/storage-panic", format!("Storage::add_delta / new_builder / add_snap on accepted values panics: {}", msg));
+    }
+}
+
 fn op_rdelta(osz: ObjSize, r: Rs<Delta>, base: &[i32], o: &mut Oracle) -> String {
     match r {
         Rs::Err(e) => format!("err:{:?}", e),
@@ -693,7 +721,7 @@ fn op_rdelta(osz: ObjSize, r: Rs<Delta>, base: &[i32], o: &mut Oracle) -> String
                 }
             };
             let ap = match snap_read_ints(base) {
-                Rs::Ok(a, _) => match snap_apply(&a, &d) {
+                Rs::Ok(a, _) => match { storage_oracle(&a, &d, o); snap_apply(&a, &d) } {
                     Rs::Ok(s, ws2) => format!("ok:{}:{} {}", fmt_snap(&s), fmt_ws(&ws2), follow_ups(&s, o)),
                     Rs::Err(e) => format!("err:{:?}", e),
                     Rs::Panic => {
@@ -1080,6 +1108,25 @@ fn gen_items(rng: &mut Rng, osz: ObjSize, n: usize, low_only: bool) -> Vec<It> {
     out
 }
 
+/// give most extended types (>= 0x4000) their registry item, so that `build_from_raw` accepts
+fn add_registry(rng: &mut Rng, items: &mut Vec<It>) {
+    let types: Vec<u16> = items.iter().map(|x| x.0).filter(|t| *t >= 0x4000).collect();
+    for t in types {
+        if rng.chance(9, 10) && !items.iter().any(|x| x.0 == 0 && x.1 == t) {
+            let data: Vec<i32> = (0..4).map(|_| rng.next() as i32).collect();
+            items.push((0, t, data));
+        }
+    }
+    // registry items of the wrong length make the whole snapshot unreadable: keep them rare here
+    if rng.chance(4, 5) {
+        for it in items.iter_mut() {
+            if it.0 == 0 && it.2.len() < 4 {
+                it.2 = (0..4).map(|_| rng.next() as i32).collect();
+            }
+        }
+    }
+}
+
 /// derive a target snapshot from `a`: items untouched, changed (same length), removed, added,
 /// rarely with a changed length (D15)
 fn gen_target(rng: &mut Rng, osz: ObjSize, a: &[It], low_only: bool, allow_resize: bool) -> Vec<It> {
@@ -1232,7 +1279,13 @@ fn gen_build_line(rng: &mut Rng, w: &mut dyn Write, big: bool) {
                 rng.pick(&prev_keys).clone()
             } else {
                 let id = if big { (i % 65536) as u16 } else if rng.chance(4, 5) { *rng.pick(&IDS) } else { rng.next() as u16 };
-                let len = if big { *rng.pick(&[0usize, 1, 12, 60]) } else { *rng.pick(&[0usize, 1, 2, 3, 4, 5]) };
+                let len = if big {
+                    *rng.pick(&[0usize, 1, 12, 60])
+                } else if rng.chance(1, 60) {
+                    *rng.pick(&[4000usize, 16000, 16376, 16377]) // up to (and one past) the 64 KiB limit
+                } else {
+                    *rng.pick(&[0usize, 1, 2, 3, 4, 5])
+                };
                 if rng.chance(1, 2) {
                     let t = if rng.chance(1, 30) { *rng.pick(&[0u16, 0x4000, 0xffff]) } else { *rng.pick(&[1u16, 2, 5, 13, 64, 0x3ffe, 0x3fff]) };
                     ("o".to_string(), t.to_string(), id, len)
@@ -1275,10 +1328,33 @@ impl Domain for D {
         Box::new(R { refdeltas: BTreeMap::new(), refout: vec![], refpool: vec![] })
     }
     fn gen(&self, tier: &str, seed: u64, w: &mut dyn Write) {
-        if let Err(msg) = catch(|| gen_all(tier, seed, w)) {
+        let mut buf: Vec<u8> = vec![];
+        if let Err(msg) = catch(|| gen_all(tier, seed, &mut buf)) {
             eprintln!("generator panic: {}", msg);
             std::process::exit(101);
         }
+        // the requests are independent: emit them in a strided order so that the expensive
+        // sweep lines are spread over all shards
+        let text = String::from_utf8(buf).unwrap();
+        let lines: Vec<&str> = text.lines().collect();
+        let n = lines.len();
+        let mut stride = 7919 % n.max(1);
+        if n < 2 || stride == 0 || gcd(stride, n) != 1 {
+            stride = 1;
+        }
+        let mut j = 0usize;
+        for _ in 0..n {
+            writeln!(w, "{}", lines[j]).unwrap();
+            j = (j + stride) % n;
+        }
+    }
+}
+
+fn gcd(a: usize, b: usize) -> usize {
+    if b == 0 {
+        a
+    } else {
+        gcd(b, a % b)
     }
 }
 
@@ -1307,8 +1383,8 @@ fn gen_all(tier: &str, seed: u64, w: &mut dyn Write) {
             sweeps.push(("ddnet", 0b1101, 7));
             sweeps.push(("none", 0b0011, 32));
             sweeps.push(("ddnet", 0b1001, 32));
-            sweeps.push(("none", 0b1111, 7));
-            sweeps.push(("ddnet", 0b1111, 7));
+            sweeps.push(("none", 0b1111, 4));
+            sweeps.push(("ddnet", 0b1111, 4));
         }
         for (name, mask, radix) in sweeps {
             let nk = (mask as u32).count_ones();
@@ -1371,8 +1447,10 @@ fn gen_all(tier: &str, seed: u64, w: &mut dyn Write) {
         for i in 0..n {
             let (name, osz) = tables[i % 4];
             let na = *rng.pick(&[0usize, 1, 2, 3, 4, 6]);
-            let a = gen_items(&mut rng, osz, na, false);
-            let b = gen_target(&mut rng, osz, &a, false, false);
+            let mut a = gen_items(&mut rng, osz, na, false);
+            add_registry(&mut rng, &mut a);
+            let mut b = gen_target(&mut rng, osz, &a, false, false);
+            add_registry(&mut rng, &mut b);
             let (ai, bi) = match (ints_of(&a), ints_of(&b)) {
                 (Some(x), Some(y)) => (x, y),
                 _ => continue,
@@ -1405,7 +1483,9 @@ fn gen_all(tier: &str, seed: u64, w: &mut dyn Write) {
             // deltas
             let (sa, sb) = (build_raw(&a).unwrap(), build_raw(&b).unwrap());
             let mut d = Delta::new();
-            d.create_raw(&sa, &sb);
+            if catch(|| d.create_raw(&sa, &sb)).is_err() {
+                continue; // a key with two lengths (D15)
+            }
             let di = match delta_write_ints(&d, osz) {
                 Some(x) => x,
                 None => continue,
@@ -1437,8 +1517,10 @@ fn gen_all(tier: &str, seed: u64, w: &mut dyn Write) {
         let reps = if thorough { 12 } else { 2 };
         for r in 0..reps {
             let (name, osz) = tables[r % 4];
-            let a = gen_items(&mut rng, osz, 3, false);
-            let b = gen_target(&mut rng, osz, &a, false, false);
+            let mut a = gen_items(&mut rng, osz, 3, false);
+            add_registry(&mut rng, &mut a);
+            let mut b = gen_target(&mut rng, osz, &a, false, false);
+            add_registry(&mut rng, &mut b);
             let (ai, bi) = match (ints_of(&a), ints_of(&b)) {
                 (Some(x), Some(y)) => (x, y),
                 _ => continue,
@@ -1459,7 +1541,9 @@ fn gen_all(tier: &str, seed: u64, w: &mut dyn Write) {
             }
             let (sa, sb) = (build_raw(&a).unwrap(), build_raw(&b).unwrap());
             let mut d = Delta::new();
-            d.create_raw(&sa, &sb);
+            if catch(|| d.create_raw(&sa, &sb)).is_err() {
+                continue;
+            }
             if let Some(di) = delta_write_ints(&d, osz) {
                 for i in 0..di.len() {
                     for &v in BOUNDS.iter().chain([di[i].wrapping_add(1), di[i].wrapping_sub(1)].iter()) {
@@ -1510,6 +1594,12 @@ fn gen_all(tier: &str, seed: u64, w: &mut dyn Write) {
                 let dup = items[0].clone();
                 items.push(dup);
             }
+            if rng.chance(1, 6) {
+                // two registry items naming the same UUID
+                let d: Vec<i32> = (0..4).map(|_| gen_val(&mut rng)).collect();
+                items.push((key_of(0, 0x4005), d.clone()));
+                items.push((key_of(0, 0x4006), d));
+            }
             // make some extended types resolvable
             if rng.chance(1, 2) {
                 let regs: Vec<u16> = items.iter().map(|(k, _)| ((*k as u32) >> 16) as u16).filter(|t| *t >= 0x4000).collect();
@@ -1537,6 +1627,65 @@ fn gen_all(tier: &str, seed: u64, w: &mut dyn Write) {
                 writeln!(w, "rsnap i {}", fmt_ints(&xs)).unwrap();
             } else {
                 writeln!(w, "rsnap b {}", to_hex(&pack_ints(&xs))).unwrap();
+            }
+        }
+        // structured hostile deltas: duplicate deletes, unknown deletes, duplicate updates, keys both
+        // deleted and updated, sizes different from the base item, wrong counts, non-zero padding
+        let n = if thorough { 6000 } else { 600 };
+        for i in 0..n {
+            let (name, osz) = tables[i % 4];
+            let na = rng.below(5) as usize;
+            let mut a = gen_items(&mut rng, osz, na, false);
+            add_registry(&mut rng, &mut a);
+            let ai = match ints_of(&a) {
+                Some(x) => x,
+                None => continue,
+            };
+            let mut pool: Vec<(u16, u16, usize)> = a.iter().map(|(t, id, d)| (*t, *id, d.len())).collect();
+            for _ in 0..3 {
+                let (t, id) = gen_key(&mut rng, false);
+                let len = gen_len(&mut rng, osz, t);
+                pool.push((t, id, len));
+            }
+            let nd = rng.below(4) as usize;
+            let mut dels: Vec<i32> = vec![];
+            for _ in 0..nd {
+                let (t, id, _) = *rng.pick(&pool);
+                dels.push(key_of(t, id));
+                if rng.chance(1, 4) {
+                    dels.push(key_of(t, id));
+                }
+            }
+            let nu = rng.below(5) as usize;
+            let mut ups: Vec<i32> = vec![];
+            let mut count = 0;
+            for _ in 0..nu {
+                let (t, id, len0) = *rng.pick(&pool);
+                let reps = if rng.chance(1, 4) { 2 } else { 1 };
+                for _ in 0..reps {
+                    ups.push(t as i32);
+                    ups.push(id as i32);
+                    let len = match osz(t) {
+                        Some(sz) => sz as usize,
+                        None => {
+                            let l = if rng.chance(1, 5) { rng.below(5) as usize } else { len0 };
+                            ups.push(l as i32);
+                            l
+                        }
+                    };
+                    for _ in 0..len {
+                        ups.push(gen_val(&mut rng));
+                    }
+                    count += 1;
+                }
+            }
+            let mut xs = vec![dels.len() as i32, if rng.chance(1, 6) { count + 1 } else { count }, if rng.chance(1, 8) { 1 } else { 0 }];
+            xs.extend(&dels);
+            xs.extend(&ups);
+            if rng.chance(1, 2) {
+                writeln!(w, "rdelta {} i {} {}", name, fmt_ints(&xs), fmt_ints(&ai)).unwrap();
+            } else {
+                writeln!(w, "rdelta {} b {} {}", name, to_hex(&pack_ints(&xs)), fmt_ints(&ai)).unwrap();
             }
         }
         // registry id chains: 0x4000, +255, ... up to the u16 / 0x8000 boundaries
